@@ -239,16 +239,53 @@ func c10SerCase(rt *rapid.T, rec *vt.Rec) {
 		used[o.Agent] = true
 		ops = append(ops, o)
 	}
+	// the known finding's input class is excluded by construction (and counted) while it is listed
+	if serKnownClass(pre, ops) && vt.Known("C10", "billing-not-atomic-shared-wallet") && c10KnownStillPresent(rt) {
+		rec.Excluded("billing-not-atomic-shared-wallet", 1)
+		return
+	}
 	var opNames []string
 	for _, o := range ops {
 		opNames = append(opNames, o.Name)
 	}
-	// serial reference runs: every permutation on a fresh, identically prepared pool
-	type outcome struct {
-		replies []string
-		digest  string
+	res := runSer(rt, cfg, pre, ops, nil)
+	if res.matched == "" {
+		rt.Fatalf("%s", res.report)
 	}
-	serial := map[string]outcome{}
+	trace, got, serialN := res.trace, res.got, res.distinctSerial
+	matched := res.matched
+	interleaved := false
+	for i := 1; i < len(trace); i++ {
+		if strings.Split(trace[i], "@")[0] != strings.Split(trace[i-1], "@")[0] && i < len(trace)-1 {
+			interleaved = true
+		}
+	}
+	rec.Case(fmt.Sprintf("ser|%s|%v|%v|%v", cfg.String(), pre, opNames, trace), interleaved, []string{"ser", fmt.Sprintf("ser:order-matters:%v", serialN > 1), "ser:driver:" + cfg.Driver}, func() interface{} {
+		return map[string]interface{}{"kind": "serialisability under owned scheduler", "config": cfg.String(), "pre": pre, "ops": opNames, "schedule": trace, "replies": got.replies, "equivalent_serial_order": matched, "distinct_serial_outcomes": serialN}
+	})
+}
+
+type serOutcome struct {
+	replies []string
+	digest  string
+}
+
+type serResult struct {
+	matched        string
+	report         string
+	trace          []string
+	got            serOutcome
+	distinctSerial int
+}
+
+// runSer runs ops once under the scheduler (rapid-drawn schedule, or the given
+// policy) and once per permutation serially, and looks for an equivalent serial order.
+func runSer(rt *rapid.T, cfg sessCfg, pre []string, ops []serOp, policy func(parked []*parkedTask) int) serResult {
+	var opNames []string
+	for _, o := range ops {
+		opNames = append(opNames, o.Name)
+	}
+	serial := map[string]serOutcome{}
 	for _, perm := range permutations(len(ops)) {
 		w := buildSerWorld(rt, cfg, pre)
 		var prep []serPrepared
@@ -259,10 +296,9 @@ func c10SerCase(rt *rapid.T, rec *vt.Rec) {
 		for _, idx := range perm {
 			replies[idx] = prep[idx].run()
 		}
-		serial[fmt.Sprint(perm)] = outcome{replies, w.digestRel()}
+		serial[fmt.Sprint(perm)] = serOutcome{replies, w.digestRel()}
 		w.s.close()
 	}
-	// the scheduled concurrent run
 	w := buildSerWorld(rt, cfg, pre)
 	defer w.s.close()
 	var prep []serPrepared
@@ -277,37 +313,102 @@ func c10SerCase(rt *rapid.T, rec *vt.Rec) {
 	}
 	sc := newSched()
 	w.s.ys.sc = sc
-	trace := sc.run(rt, opNames, fns)
+	var trace []string
+	if policy != nil {
+		trace = sc.runWith(policy, opNames, fns)
+	} else {
+		trace = sc.run(rt, opNames, fns)
+	}
 	w.s.ys.sc = nil
-	got := outcome{replies, w.digestRel()}
-	matched := ""
+	got := serOutcome{replies, w.digestRel()}
+	res := serResult{trace: trace, got: got}
+	distinct := map[string]bool{}
 	for perm, o := range serial {
-		if o.digest == got.digest && strings.Join(o.replies, "\x00") == strings.Join(got.replies, "\x00") {
-			matched = perm
-			break
+		distinct[o.digest+strings.Join(o.replies, "|")] = true
+		if res.matched == "" && o.digest == got.digest && strings.Join(o.replies, "\x00") == strings.Join(got.replies, "\x00") {
+			res.matched = perm
 		}
 	}
-	if matched == "" {
+	res.distinctSerial = len(distinct)
+	if res.matched == "" {
 		var sb strings.Builder
 		for perm, o := range serial {
 			fmt.Fprintf(&sb, "\n--- serial order %s: replies %q\n    state differences to the concurrent run:\n%s", perm, o.replies, indent(diffDigest(o.digest, got.digest)))
 		}
-		rt.Fatalf("concurrent execution of %v is not equivalent to any one-at-a-time order\nconfig: %s pre=%v\nschedule: %v\nconcurrent replies: %q%s", opNames, cfg, pre, trace, got.replies, sb.String())
+		res.report = fmt.Sprintf("concurrent execution of %v is not equivalent to any one-at-a-time order\nconfig: %s pre=%v\nschedule: %v\nconcurrent replies: %q%s", opNames, cfg, pre, trace, got.replies, sb.String())
 	}
-	distinctSerial := map[string]bool{}
-	for _, o := range serial {
-		distinctSerial[o.digest+strings.Join(o.replies, "|")] = true
+	return res
+}
+
+// serKnownClass: a withdrawal of wallet w0 racing a keep-alive whose client AND one of its billed peers are both
+// on w0 (billing = debit client + credit peers as separate store calls; the withdrawal can read in between).
+func serKnownClass(pre []string, ops []serOp) bool {
+	has := func(xs []string, x string) bool {
+		for _, y := range xs {
+			if y == x {
+				return true
+			}
+		}
+		return false
 	}
-	interleaved := false
-	for i := 1; i < len(trace); i++ {
-		if strings.Split(trace[i], "@")[0] != strings.Split(trace[i-1], "@")[0] && i < len(trace)-1 {
-			interleaved = true
+	withdraw, keepC2 := false, false
+	for _, o := range ops {
+		if o.Kind == "withdraw" {
+			withdraw = true
+		}
+		if o.Kind == "update" && o.Agent == 2 {
+			keepC2 = true
 		}
 	}
-	rec.Case(fmt.Sprintf("ser|%s|%v|%v|%v", cfg.String(), pre, opNames, trace), interleaved, []string{"ser", fmt.Sprintf("ser:order-matters:%v", len(distinctSerial) > 1), "ser:driver:" + cfg.Driver}, func() interface{} {
-		return map[string]interface{}{"kind": "serialisability under owned scheduler", "config": cfg.String(), "pre": pre, "ops": opNames, "schedule": trace, "replies": got.replies, "equivalent_serial_order": matched, "distinct_serial_outcomes": len(distinctSerial)}
-	})
+	return withdraw && keepC2 && has(pre, "linkH0") && has(pre, "linkC2")
 }
+
+var c10KnownChecked, c10KnownPresent bool
+
+// c10KnownStillPresent replays the fixed regression schedule of the known finding once per process.
+func c10KnownStillPresent(rt *rapid.T) bool {
+	if c10KnownChecked {
+		return c10KnownPresent
+	}
+	c10KnownChecked = true
+	cfg := sessCfg{Driver: "memory", Price: big.NewInt(1000), Interval: time.Minute, Yield: true}
+	ops := []serOp{{"withdraw", 0, "withdraw(w0)"}, {"update", 2, "keepalive(c2)"}}
+	// schedule: keep-alive runs until it has debited the client (parked at its 2nd AddNodeBalance), then the withdrawal runs to the end
+	policy := func(parked []*parkedTask) int {
+		var wi, ki = -1, -1
+		for i, p := range parked {
+			if p.task == 0 {
+				wi = i
+			} else {
+				ki = i
+			}
+		}
+		if ki >= 0 && wi >= 0 {
+			if c10KnownDebited {
+				return wi
+			}
+			if parked[ki].label == "AddNodeBalance" {
+				c10KnownAdds++
+				if c10KnownAdds == 2 {
+					c10KnownDebited = true
+					return wi
+				}
+			}
+			return ki
+		}
+		return 0
+	}
+	c10KnownAdds, c10KnownDebited = 0, false
+	res := runSer(rt, cfg, []string{"linkH0", "linkC2", "credit"}, ops, policy)
+	c10KnownPresent = res.matched == ""
+	if c10KnownPresent {
+		vt.ReportKnown("C10", "billing-not-atomic-shared-wallet")
+	}
+	return c10KnownPresent
+}
+
+var c10KnownAdds int
+var c10KnownDebited bool
 
 func indent(s string) string {
 	if s == "" {
